@@ -142,6 +142,9 @@ def _draw_params(rng, algo, T1):
         p["beta"], p["gamma"] = float(rng.uniform(0.1, 0.5)), float(rng.uniform(0.4, 0.9))  # must be overwritten by the scheme
     elif algo == "parabolic":
         p["alpha"] = float(rng.choice([1.0, 0.5, rng.uniform(0.05, 1.0)]))
+    elif algo == "midpoint" and rng.random() < 0.5:
+        # one set of keyword arguments reused for every scheme: the midpoint rule is documented with fixed alpha, beta, gamma
+        p["alpha"], p["beta"], p["gamma"] = float(rng.uniform(0, 0.9)), float(rng.uniform(0.1, 0.5)), float(rng.uniform(0.4, 0.9))
     return p
 
 
@@ -266,8 +269,12 @@ def run_steps(case, ctx, rng):
         if algo is None or case.get("switch"):
             algo = str(rng.choice(case["algos"]))
             p = _draw_params(rng, algo, T1)
-        elif rng.random() < 0.3:
+        elif rng.random() < 0.45:
+            dt_old = p["dt"]
             p = _draw_params(rng, algo, T1)  # change dt / parameters between steps
+            if rng.random() < 0.5:
+                p["dt"] = dt_old  # only alpha / beta / gamma change: same algorithm, same step size
+                ctx.event("parameters-changed-at-fixed-dt")
         key = f"C05/{algo}/{kind}"
         if case.get("alpha0"):
             # documented option of Solver_Set_Parabolic_Algorithm: "alpha = 0 -> Forward Euler"
